@@ -54,6 +54,8 @@ def run(prog, rep, tier, repo):
         if val is not None:
             ix = IdxFunc(prog, f)
             try:
+                # equalities asserted on the way to the return (x.len() == y.len()) may be used to identify row-count arguments
+                me_._cur_bb = f.cfg.returns[0] if f.cfg.returns else None
                 e, r, c = me_.mat(f, val, ix, {x: 'x', y: 'y'})
                 V = ('M', 'V')
                 want = ('Mul', ('Inv', ('Mul', T(V), V)), ('Mul', T(V), ('M', 'y')))
